@@ -204,3 +204,121 @@ pub fn run_extension_oracle(cx: &mut Ctx, th: bool) {
         }
     }
 }
+
+// ---------------------------------------------------------------------------------------------
+// compressor frames against coq/C02/ModelComp.v  (ops 10..17 of RunCaseX.v)
+// ---------------------------------------------------------------------------------------------
+fn u(v: &[u8]) -> Vec<u128> { v.iter().map(|&b| b as u128).collect() }
+fn out1(r: &std::result::Result<Vec<u8>, String>) -> Vec<u128> {
+    match r { Ok(z) => { let mut e = vec![1u128]; e.extend(u(z)); e } Err(_) => vec![0] }
+}
+/// a frame and a few damaged copies of it (cut inside the header, inside the payload, one byte short, one size byte changed)
+fn damaged(r: &mut Rng, z: &[u8], size_at: usize) -> Vec<Vec<u8>> {
+    let mut v = vec![];
+    if z.is_empty() { return v; }
+    v.push(z[..z.len() - 1].to_vec());
+    v.push(z[..r.below(z.len() as u64) as usize].to_vec());
+    if z.len() > size_at { let mut w = z.to_vec(); w[size_at] = w[size_at].wrapping_add(1); v.push(w); }
+    v
+}
+
+/// kind 0: RansCompressor, 1: DictCompressor, 2: HuffmanCompressor.  The payload must be small (it is spelled out in the
+/// Coq case); the training corpus may be large (only the counts / the tree bytes go to Coq).
+pub fn comp_tie(cx: &mut Ctx, kind: u64, x: &[u8], train: &[u8], force: bool) {
+    let name = ["Rans", "Dictionary", "Huffman"][kind as usize % 3];
+    let cell = format!("factory/{}", name);
+    let cj = json!({"cell": "comp_tie", "kind": kind, "data": x, "train_len": train.len(), "train": if train.len() <= 600 { json!(train) } else { json!(null) },
+                    "train_desc": if train.len() > 600 { json!(train_desc(train)) } else { json!(null) }});
+    cx.sum.eval(&cell, &format!("tie {} {:?} {}", kind, x, fnv_bytes(train)), x.len() >= 2);
+    let mut r = Rng::new(fnv_bytes(x) ^ fnv_bytes(train));
+    let res = guarded(|| -> Option<()> {
+        match kind % 3 {
+            0 => {
+                let c = RansCompressor::new(train).ok()?;
+                let z = c.compress(x).map_err(|e| e.to_string());
+                // the counts of the instance, as they appear in any frame it writes
+                let probe = c.compress(&train[..1]).ok()?;
+                let counts: Vec<u128> = (0..256).map(|i| u32::from_le_bytes([probe[4 * i], probe[4 * i + 1], probe[4 * i + 2], probe[4 * i + 3]]) as u128).collect();
+                if train.len() <= 400 { cx.coq(12, &u(train), &[], &counts, cj.clone(), force); }
+                cx.coq(10, &counts, &u(x), &out1(&z), cj.clone(), force);
+                if let Ok(z) = &z {
+                    let back = c.decompress(z).map_err(|e| e.to_string());
+                    cx.coq(11, &u(z), &[], &out1(&back), cj.clone(), force);
+                    if r.chance(1, 3) { for w in damaged(&mut r, z, 1024) { if let Ok(b) = guarded(|| c.decompress(&w).map_err(|e| e.to_string())) { cx.coq(11, &u(&w), &[], &out1(&b), cj.clone(), false); } } }
+                }
+            }
+            1 => {
+                let c = DictCompressor::new(train).ok()?;
+                let z = c.compress(x).map_err(|e| e.to_string());
+                cx.coq(13, &u(x), &[], &out1(&z), cj.clone(), force);
+                if let Ok(z) = &z {
+                    let back = c.decompress(z).map_err(|e| e.to_string());
+                    cx.coq(14, &u(z), &[], &out1(&back), cj.clone(), force);
+                    for w in damaged(&mut r, z, 1) { if let Ok(b) = guarded(|| c.decompress(&w).map_err(|e| e.to_string())) { cx.coq(14, &u(&w), &[], &out1(&b), cj.clone(), false); } }
+                }
+            }
+            _ => {
+                let c = HuffmanCompressor::new(train).ok()?;
+                let td = c.tree_data().to_vec();
+                cx.coq(17, &u(&td), &[], &u(&td), cj.clone(), force);
+                let z = c.compress(x).map_err(|e| e.to_string());
+                cx.coq(15, &u(&td), &u(x), &out1(&z), cj.clone(), force);
+                if let Ok(z) = &z {
+                    let back = c.decompress(z).map_err(|e| e.to_string());
+                    cx.coq(16, &u(z), &[], &out1(&back), cj.clone(), force);
+                    // cuts only: a changed byte inside the table may produce overlapping codes, whose tree depends on the HashMap's order
+                    let mut ws = vec![z[..z.len() - 1].to_vec(), z[..r.below(z.len() as u64) as usize].to_vec()];
+                    if z.len() > 4 + td.len() { let mut w = z.clone(); w[4 + td.len()] = w[4 + td.len()].wrapping_add(1); ws.push(w); }
+                    for w in ws { if let Ok(b) = guarded(|| c.decompress(&w).map_err(|e| e.to_string())) { cx.coq(16, &u(&w), &[], &out1(&b), cj.clone(), false); } }
+                }
+            }
+        }
+        Some(())
+    });
+    match res {
+        // the tie code itself relies on the modelled layout (e.g. 1024 bytes of counts): if it trips, that is a broken
+        // correspondence (a case the model cannot agree with), not an oracle failure - the oracle cells decide the property
+        Err(p) => { cx.sum.dist("comp_tie_broken"); cx.sum.notes.push(format!("comp_tie kind {} could not observe the frame: {}", kind, p)); cx.coq(10 + [0u32, 3, 5][kind as usize % 3], &[], &[], &[424242], cj, true); }
+        Ok(None) => cx.sum.dist("comp_tie_setup_refused"),
+        Ok(Some(())) => {}
+    }
+}
+fn fnv_bytes(b: &[u8]) -> u64 { let mut h: u64 = 0xcbf29ce484222325; for &x in b { h ^= x as u64; h = h.wrapping_mul(0x100000001b3); } h }
+/// a large training corpus in replayable form: (dominant byte, count, seed) - see big_training
+fn train_desc(t: &[u8]) -> Value { json!({"len": t.len(), "first": t.first(), "hash": fnv_bytes(t).to_string()}) }
+
+/// large training corpora described by (dominant byte, count): per-symbol counts around 2^16 / 2^17
+pub fn big_training(dom: u8, c: usize) -> Vec<u8> {
+    let mut t: Vec<u8> = Vec::with_capacity(c + 1200);
+    for i in 0..c { t.push(dom); if i % 997 == 0 { t.push(TEXT[(i / 997) % TEXT.len()]); } }
+    t.extend((0..=255u8).collect::<Vec<u8>>());
+    t.extend_from_slice(TEXT);
+    t
+}
+pub fn comp_tie_big(cx: &mut Ctx, kind: u64, x: &[u8], dom: u8, c: usize) {
+    let t = big_training(dom, c);
+    comp_tie(cx, kind, x, &t, false)
+}
+
+pub fn run_comp_ties(cx: &mut Ctx, th: bool) {
+    for k in 0..(if th { 600 } else { 90 }) {
+        let mut r = cx.rng.clone();
+        let fam = r.below(10);
+        let n = match r.below(5) { 0 => r.range(1, 4) as usize, 1 | 2 => r.range(5, 60) as usize, 3 => r.range(60, 200) as usize, _ => *r.pick(&[255usize, 256, 257, 300]) };
+        let x = payload(&mut r, fam, n);
+        let tk = r.below(7);
+        let t = training(&mut r, tk, &x);
+        cx.rng = r;
+        if t.is_empty() { continue; }
+        comp_tie(cx, k % 3, &x, &t, false);
+    }
+    // counts around 2^16 and 2^17 in the stored table / in the tree construction
+    for (i, &c) in [65535usize, 65536, 65537, 70_000, 131_073].iter().enumerate() {
+        let mut r = cx.rng.clone();
+        let dom = *r.pick(&[b'a', b' ', 0u8, 0xFF]);
+        let x: Vec<u8> = (0..30).map(|j| if j % 3 == 0 { dom } else { TEXT[r.below(TEXT.len() as u64) as usize] }).collect();
+        cx.rng = r;
+        comp_tie_big(cx, 0, &x, dom, c);
+        if th || i % 2 == 0 { comp_tie_big(cx, 2, &x, dom, c); }
+    }
+}
